@@ -198,10 +198,42 @@ func emitRawRt(o *Out, inner string) {
 		if i != len(toks) {
 			bal = "0"
 		}
+		if rawReuse(doc) {
+			return "earlier-capture-changed-by-a-later-one"
+		}
 		return m + " " + sxNode(t2) + " " + bal
 	})
 	o.Stat("rawxml." + strings.Fields(res + " x")[len(strings.Fields(res+" x"))-2])
 	o.Emit("raw.rt", sxNode(first), res)
+}
+
+// One variable captures document after document while a by-value copy of the previous capture is kept (as the library
+// itself does when it appends captured values to Prop.Raw): what the kept copy writes out must not change.
+var rawReuseHolder struct {
+	Raw internal.RawXMLValue `xml:",any"`
+}
+var rawKept *internal.RawXMLValue
+var rawKeptOut string
+
+func rawReuse(doc string) (aliased bool) {
+	defer func() {
+		if r := recover(); r != nil {
+			aliased = false
+		}
+	}()
+	if err := xml.Unmarshal([]byte(doc), &rawReuseHolder); err != nil {
+		return false
+	}
+	if rawKept != nil {
+		if now, err := xml.Marshal(rawKept); err != nil || string(now) != rawKeptOut {
+			aliased = true
+		}
+	}
+	kept := rawReuseHolder.Raw
+	rawKept = &kept
+	out, _ := xml.Marshal(rawKept)
+	rawKeptOut = string(out)
+	return aliased
 }
 
 var rawPieces = []string{
